@@ -137,11 +137,19 @@ Definition flat_entries (m : gomap) : list entry := flat_map snd m.
 Inductive mapid := MGet | MPost | MPath | MHdr | MCookie | MTx | MMvars.
 Inductive sid := SUri | SMethod | SQuery | SMvar | SMvarName.
 
+(* an exclusion as GetField tests it: ruleVariableException{KeyStr, KeyRx} *)
+Record cexc := mk_cexc { x_keystr : bytes; x_keyrx : option rxpat }.
+(* tx.ruleRemoveTargetByID: exclusions added at run time by ctl:ruleRemoveTargetById/ByTag/ByMsg for
+   the rules with lo <= id <= hi, on one variable *)
+Record rtexc := mk_rtexc { rx_lo : N; rx_hi : N; rx_var : var; rx_exc : cexc }.
+
 Record state := mk_state {
   s_get : gomap; s_post : gomap; s_path : gomap; s_hdr : gomap; s_cookie : gomap; s_tx : gomap;
   s_mvars : gomap;                       (* MATCHED_VARS (its names view is MATCHED_VARS_NAMES) *)
   s_uri : bytes; s_method : bytes; s_query : bytes;
-  s_mvar : bytes; s_mvarname : bytes     (* MATCHED_VAR, MATCHED_VAR_NAME *)
+  s_mvar : bytes; s_mvarname : bytes;    (* MATCHED_VAR, MATCHED_VAR_NAME *)
+  s_excl : list rtexc;                   (* tx.ruleRemoveTargetByID *)
+  s_rid : N                              (* id of the rule being evaluated (chain links: the parent's) *)
 }.
 
 Definition get_map (st : state) (i : mapid) : gomap :=
@@ -155,19 +163,25 @@ Definition get_single (st : state) (i : sid) : bytes :=
 
 Definition set_mvar (st : state) (x : bytes) : state :=
   mk_state (s_get st) (s_post st) (s_path st) (s_hdr st) (s_cookie st) (s_tx st) (s_mvars st)
-           (s_uri st) (s_method st) (s_query st) x (s_mvarname st).
+           (s_uri st) (s_method st) (s_query st) x (s_mvarname st) (s_excl st) (s_rid st).
 Definition set_mvarname (st : state) (x : bytes) : state :=
   mk_state (s_get st) (s_post st) (s_path st) (s_hdr st) (s_cookie st) (s_tx st) (s_mvars st)
-           (s_uri st) (s_method st) (s_query st) (s_mvar st) x.
+           (s_uri st) (s_method st) (s_query st) (s_mvar st) x (s_excl st) (s_rid st).
 Definition set_mvars (st : state) (m : gomap) : state :=
   mk_state (s_get st) (s_post st) (s_path st) (s_hdr st) (s_cookie st) (s_tx st) m
-           (s_uri st) (s_method st) (s_query st) (s_mvar st) (s_mvarname st).
+           (s_uri st) (s_method st) (s_query st) (s_mvar st) (s_mvarname st) (s_excl st) (s_rid st).
 Definition set_tx (st : state) (m : gomap) : state :=
   mk_state (s_get st) (s_post st) (s_path st) (s_hdr st) (s_cookie st) m (s_mvars st)
-           (s_uri st) (s_method st) (s_query st) (s_mvar st) (s_mvarname st).
+           (s_uri st) (s_method st) (s_query st) (s_mvar st) (s_mvarname st) (s_excl st) (s_rid st).
 Definition set_post (st : state) (m : gomap) : state :=
   mk_state (s_get st) m (s_path st) (s_hdr st) (s_cookie st) (s_tx st) (s_mvars st)
-           (s_uri st) (s_method st) (s_query st) (s_mvar st) (s_mvarname st).
+           (s_uri st) (s_method st) (s_query st) (s_mvar st) (s_mvarname st) (s_excl st) (s_rid st).
+Definition set_excl (st : state) (l : list rtexc) : state :=
+  mk_state (s_get st) (s_post st) (s_path st) (s_hdr st) (s_cookie st) (s_tx st) (s_mvars st)
+           (s_uri st) (s_method st) (s_query st) (s_mvar st) (s_mvarname st) l (s_rid st).
+Definition set_rid (st : state) (id : N) : state :=
+  mk_state (s_get st) (s_post st) (s_path st) (s_hdr st) (s_cookie st) (s_tx st) (s_mvars st)
+           (s_uri st) (s_method st) (s_query st) (s_mvar st) (s_mvarname st) (s_excl st) id.
 
 (* what a variable is made of (NewTransactionVariables):
    keyed = concatenation of (names-view?, underlying map); single; sized; noop *)
@@ -268,7 +282,6 @@ Definition find_all (ord : oracle) (c : coll) : list entry :=
 Inductive sel := SelAll | SelStr (k : bytes) | SelRx (p : rxpat).
 Inductive titem := TPos (count : bool) (v : var) (s : sel) | TNeg (v : var) (s : sel).
 
-Record cexc := mk_cexc { x_keystr : bytes; x_keyrx : option rxpat }.
 Record cparams := mk_cparams {
   c_count : bool; c_var : var; c_keystr : bytes; c_keyrx : option rxpat; c_excs : list cexc }.
 
@@ -319,6 +332,12 @@ Definition field_matches (X : sem) (ord : oracle) (col : coll) (c : cparams) : l
     else match col with CKeyed ls => concat_find (leaf_find_string (c_keystr c)) ord 0 ls | _ => [] end
   end.
 
+(* doEvaluate: for _, c := range tx.ruleRemoveTargetByID[rid] { if c.Variable == v.Variable { v.Exceptions = append(...) } } *)
+Definition rt_excs (st : state) (v : var) : list cexc :=
+  map rx_exc (filter (fun e => (rx_lo e <=? s_rid st) && (s_rid st <=? rx_hi e) && var_eqb (rx_var e) v) (s_excl st)).
+Definition with_rt (st : state) (c : cparams) : cparams :=
+  mk_cparams (c_count c) (c_var c) (c_keystr c) (c_keyrx c) (c_excs c ++ rt_excs st (c_var c)).
+
 Definition get_field (X : sem) (ord : oracle) (st : state) (c : cparams) : list mdata :=
   let matches := field_matches X ord (collection st (c_var c)) c in
   let filtered := filter (fun e => negb (is_exception X (c_excs c) (key_lower (fst e)))) matches in
@@ -328,8 +347,14 @@ Definition get_field (X : sem) (ord : oracle) (st : state) (c : cparams) : list 
 (* ------------------------------------------------------------------------------------ *)
 (* rules                                                                                 *)
 (* ------------------------------------------------------------------------------------ *)
+(* non-disruptive actions of operator-less rules: constant setvar:tx.k=v;
+   ctl:ruleRemoveTargetById=lo-hi;VAR[:key|:/rx/]  (ByTag / ByMsg resolve to ids the same way) *)
+Inductive action :=
+  | ASetvar (k v : bytes)
+  | ACtlRmTarget (lo hi : N) (v : var) (s : sel).
+
 Inductive lkind :=
-  | LAction (setvars : list (bytes * bytes))     (* operator-less: SecAction; constant setvar:tx.k=v *)
+  | LAction (acts : list action)                 (* operator-less: SecAction *)
   | LRule (neg : bool) (o : op).
 
 Record link := mk_link { l_items : list titem; l_kind : lkind; l_tfs : list tid; l_multi : bool }.
@@ -357,7 +382,7 @@ Definition match_variable (st : state) (m : mdata) : state :=
 (* the loop over r.variables: tx.GetField(v) is called when variable v is reached, i.e. AFTER the
    matches of the earlier variables of the same link have updated MATCHED_VAR / _NAME / MATCHED_VARS *)
 Definition target_matches (X : sem) (o : oracle) (st : state) (l : link) (neg : bool) (op0 : op) (c : cparams) : list mdata :=
-  flat_map (satisfying X l neg op0) (get_field X o st c).
+  flat_map (satisfying X l neg op0) (get_field X o st (with_rt st c)).
 Definition target_post (X : sem) (o : oracle) (st : state) (l : link) (neg : bool) (op0 : op) (c : cparams) : state :=
   fold_left match_variable (target_matches X o st l neg op0 c) st.
 
@@ -375,13 +400,28 @@ Fixpoint eval_targets (X : sem) (ord : oracle) (st : state) (l : link) (neg : bo
 Definition apply_setvar (st : state) (kv : bytes * bytes) : state :=
   set_tx st (map_set1 (s_tx st) (key_lower (fst kv)) (snd kv)).
 
+(* actions/ctl.go parseCtl: a regex key is compiled AS WRITTEN (no case folding) and the string key
+   is blanked; a string key is lower-cased; no key: the whole collection.
+   transaction.go RemoveRuleTargetByID appends to tx.ruleRemoveTargetByID *)
+Definition ctl_exc (s : sel) : cexc :=
+  match s with
+  | SelAll => mk_cexc [] None
+  | SelStr k => mk_cexc (key_lower k) None
+  | SelRx p => mk_cexc [] (Some p)
+  end.
+Definition apply_action (st : state) (a : action) : state :=
+  match a with
+  | ASetvar k v => apply_setvar st (k, v)
+  | ACtlRmTarget lo hi v s => set_excl st (s_excl st ++ [mk_rtexc lo hi v (ctl_exc s)])
+  end.
+
 Definition unknown_md : mdata := (VUnknown, [], []).
 
 (* one link: its matches and the state it leaves.  An operator-less rule matches the empty
    MatchData (matchVariable runs for it too) and then runs its setvar actions *)
 Definition link_eval (X : sem) (ord : oracle) (st : state) (l : link) : list mdata * state :=
   match l_kind l with
-  | LAction svs => ([unknown_md], fold_left apply_setvar svs (match_variable st unknown_md))
+  | LAction acts => ([unknown_md], fold_left apply_action acts (match_variable st unknown_md))
   | LRule neg o => eval_targets X ord st l neg o 0 (compile_items X (l_items l) [])
   end.
 Definition link_matches (X : sem) (ord : oracle) (st : state) (l : link) : list mdata := fst (link_eval X ord st l).
@@ -416,6 +456,9 @@ Definition rule_fires (X : sem) (ord : oracle) (st : state) (r : rule) : bool :=
 Definition in_phase (ph : N) (r : rule) : bool := (r_phase r =? 0) || (r_phase r =? ph).
 Definition fired := (N * list (mdata * nat))%type.
 
+(* before a rule is evaluated: MATCHED_VARS is reset; rid := the rule's id *)
+Definition rule_start (st : state) (r : rule) : state := set_rid (set_mvars st []) (r_id r).
+
 Fixpoint eval_rules (X : sem) (ord : oracle) (st : state) (ph : N) (i : nat) (rules : list rule)
   : list fired * state :=
   match rules with
@@ -423,7 +466,7 @@ Fixpoint eval_rules (X : sem) (ord : oracle) (st : state) (ph : N) (i : nat) (ru
   | r :: rest =>
     if in_phase ph r then
       (* tx.variables.matchedVars.Reset() before every evaluated rule *)
-      let '(res, st') := eval_rule X (sub ord i) (set_mvars st []) r in
+      let '(res, st') := eval_rule X (sub ord i) (rule_start st r) r in
       let '(out, st'') := eval_rules X ord st' ph (S i) rest in
       (match res with
        | Some mds => if r_id r =? 0 then out else (r_id r, mds) :: out
@@ -442,13 +485,28 @@ Definition tx_init : list entry := map (fun n => (itoa n, [])) [0; 1; 2; 3; 4; 5
 
 Definition build1 (q : request) : state :=
   mk_state (map_of_list (q_get q)) [] [] (map_of_list (q_hdr q)) (map_of_list (q_cookie q)) (map_of_list tx_init) []
-           (q_uri q) (q_method q) (q_query q) [] [].
+           (q_uri q) (q_method q) (q_query q) [] [] [] 0.
 
 Definition run_tx (X : sem) (ord : oracle) (q : request) (rules : list rule) : list fired :=
   let '(o1, st1) := eval_rules X (sub ord 1) (build1 q) 1 0 rules in
   let st2 := set_post st1 (map_of_list (q_post q)) in
   let '(o2, _) := eval_rules X (sub ord 2) st2 2 0 rules in
   o1 ++ o2.
+
+(* SecRuleRemoveById ID|RANGE ...: RuleGroup.DeleteByID (the first rule with that id; the tail is
+   shifted: order kept) / DeleteByRange *)
+Inductive removal := RmId (id : N) | RmRange (lo hi : N).
+Fixpoint delete_by_id (id : N) (rules : list rule) : list rule :=
+  match rules with
+  | [] => []
+  | r :: rest => if r_id r =? id then rest else r :: delete_by_id id rest
+  end.
+Definition apply_removal (rules : list rule) (rm : removal) : list rule :=
+  match rm with
+  | RmId id => delete_by_id id rules
+  | RmRange lo hi => filter (fun r => (r_id r <? lo) || (hi <? r_id r)) rules
+  end.
+Definition remove_rules (rms : list removal) (rules : list rule) : list rule := fold_left apply_removal rms rules.
 
 (* ------------------------------------------------------------------------------------ *)
 (* the concrete semantics used by the correspondence                                     *)
@@ -593,6 +651,18 @@ Definition spec_selects (X : sem) (st : state) (t : rtarget) : list mdata :=
   then [(rt_var t, c_keystr (compile_target X t), itoa (N.of_nat (length (spec_selected X st t))))]
   else map (fun e => (rt_var t, fst e, snd e)) (spec_selected X st t).
 
+(* with the exclusions added at run time (ctl) for the rule being evaluated: an entry is also
+   removed when one of them hits its folded key (regex on the key, or the stored string equal to
+   it, or neither given = the whole collection) *)
+Definition rt_excluded (X : sem) (st : state) (v : var) (key : bytes) : bool :=
+  existsb (fun x => exc_hits X x (key_lower key)) (rt_excs st v).
+Definition spec_selected_rt (X : sem) (st : state) (t : rtarget) : list entry :=
+  filter (fun e => negb (rt_excluded X st (rt_var t) (fst e))) (spec_selected X st t).
+Definition spec_selects_rt (X : sem) (st : state) (t : rtarget) : list mdata :=
+  if rt_count t
+  then [(rt_var t, c_keystr (compile_target X t), itoa (N.of_nat (length (spec_selected_rt X st t))))]
+  else map (fun e => (rt_var t, fst e, snd e)) (spec_selected_rt X st t).
+
 (* match data of one link, EXACT: the satisfying (variable, key, transformed value) triples of
    every target, each target selected in the state the earlier targets of the link left
    (MATCHED_VAR / MATCHED_VAR_NAME / MATCHED_VARS move with every match) *)
@@ -600,7 +670,7 @@ Fixpoint spec_targets (X : sem) (ord : oracle) (st : state) (l : link) (neg : bo
          (i : nat) (ts : list rtarget) : list mdata :=
   match ts with
   | [] => []
-  | t :: r => flat_map (satisfying X l neg o) (spec_selects X st t)
+  | t :: r => flat_map (satisfying X l neg o) (spec_selects_rt X st t)
               ++ spec_targets X ord (target_post X (sub ord i) st l neg o (compile_target X t)) l neg o (S i) r
   end.
 Definition spec_link_matches_t (X : sem) (ord : oracle) (st : state) (l : link) : list mdata :=
@@ -616,6 +686,20 @@ Definition link_holds_t (X : sem) (ord : oracle) (st : state) (l : link) : Prop 
 
 (* the same for a link that reads none of the MATCHED_* variables: every target selected in the
    state before the link - no order oracle, no threading (= spec_link_matches_t, proved) *)
+Definition spec_link_matches_rt (X : sem) (st : state) (l : link) : list mdata :=
+  match l_kind l with
+  | LAction _ => [(VUnknown, [], [])]
+  | LRule neg o => flat_map (fun t => flat_map (satisfying X l neg o) (spec_selects_rt X st t))
+                            (targets_of_items (l_items l))
+  end.
+Definition link_holds_rt (X : sem) (st : state) (l : link) : Prop :=
+  match l_kind l with
+  | LAction _ => True
+  | LRule neg o =>
+    exists t md cv, In t (targets_of_items (l_items l)) /\ In md (spec_selects_rt X st t)
+                    /\ In cv (transform_values l (md_value md)) /\ xorb (opev X o cv) neg = true
+  end.
+(* ... and, when no run-time exclusion applies to the rule being evaluated, the plain versions: *)
 Definition spec_link_matches (X : sem) (st : state) (l : link) : list mdata :=
   match l_kind l with
   | LAction _ => [(VUnknown, [], [])]
@@ -667,7 +751,7 @@ Fixpoint spec_fired (X : sem) (ord : oracle) (st : state) (ph : N) (i : nat) (ru
   match rules with
   | [] => []
   | r :: rest =>
-    let st' := if in_phase ph r then snd (eval_rule X (sub ord i) (set_mvars st []) r) else st in
-    (if in_phase ph r && rule_fires X (sub ord i) (set_mvars st []) r && negb (r_id r =? 0) then [r_id r] else [])
+    let st' := if in_phase ph r then snd (eval_rule X (sub ord i) (rule_start st r) r) else st in
+    (if in_phase ph r && rule_fires X (sub ord i) (rule_start st r) r && negb (r_id r =? 0) then [r_id r] else [])
     ++ spec_fired X ord st' ph (S i) rest
   end.
